@@ -29,6 +29,8 @@ structure Slot where
   readSince : Bool := false
   /-- buffer iterators: spec cursor over the segments -/
   seg : SegCur := {}
+  /-- made by `it profile` / `it poly`: the driver owns a grid array for this slot -/
+  hasGrid : Bool := false
 
 structure St where
   slots : Array Slot := #[]
@@ -42,20 +44,29 @@ def hasCI (s : List Char) (w : String) : Bool :=
   let wl := w.toList
   (List.range (s.length + 1)).any fun i => lowerStr ((s.drop i).take wl.length) = wl
 
-/-- digit runs longer than 15 or exponents with more than two digits; `run` = digits of the current run -/
-def longRuns : List Char → Nat → Bool
+/-- digit runs longer than 15 or exponents with more than two digits; `run` = digits of the current run;
+    `sub`: subnormal literals e-300 .. e-323 are let through (plain value lists) -/
+def longRuns (sub : Bool) : List Char → Nat → Bool
   | [], _ => false
   | c :: cs, run =>
-    if Iter.isDigit c then (if 15 ≤ run then true else longRuns cs (run + 1))
-    else if (c = 'e' ∨ c = 'E') ∧
-        2 < ((if cs.head? = some '+' ∨ cs.head? = some '-' then cs.tail else cs).takeWhile Iter.isDigit).length then true
-    else longRuns cs 0
+    if Iter.isDigit c then (if 15 ≤ run then true else longRuns sub cs (run + 1))
+    else if c = 'e' ∨ c = 'E' then
+      let neg := cs.head? = some '-'
+      let q := if cs.head? = some '+' ∨ cs.head? = some '-' then cs.tail else cs
+      let ds := q.takeWhile Iter.isDigit
+      if 2 < ds.length then
+        let ok := sub && neg && ds.length == 3 && ds.head? == some '3' &&
+          ((ds.getD 1 '9').toNat < 50 || ((ds.getD 1 '9') == '2' && (ds.getD 2 '9').toNat ≤ 51))
+        if ok then longRuns sub cs 0 else true
+      else longRuns sub cs 0
+    else longRuns sub cs 0
 
 /-- same syntactic filter as `unmodelled` in harness/drv_iter.c -/
 def unmodelled (s : List Char) : Bool :=
-  -- "nan" is modelled (as "not a number": refused) in plain value lists, i.e. texts that do not start with a keyword
+  -- "nan" (refused) and "inf" (an infinite element) are modelled in plain value lists, i.e. texts that do not
+  -- start with a keyword
   let keyword := match (Iter.dropSpace s).head? with | some c => Iter.isAlpha c | none => false
-  hasCI s "inf" || (keyword && hasCI s "nan") || hasCI s "0x" || hasCI s "file" || longRuns s 0
+  (keyword && hasCI s "inf") || (keyword && hasCI s "nan") || hasCI s "0x" || hasCI s "file" || longRuns (!keyword) s 0
 
 /-- number of decimal digits -/
 def ndigits (n : Nat) : Nat := (Nat.toDigits 10 n).length
@@ -123,7 +134,8 @@ def tooBig (q : Rat) : Bool :=
   a > IterSpec.pow10 300 || (q ≠ 0 && a < IterSpec.pow10 (-300))
 
 def fmtNum (q : Rat) (exact : Bool) (first : Rat := 0) : String :=
-  if tooBig q then "unmodelled"
+  if absR q ≥ Iter.infVal then (if q < 0 then "-inf" else "inf")
+  else if tooBig q then "unmodelled"
   else if exact then Dyadic.text q else fmtTol q first
 
 /-- all numbers of a value-list text (what the text denotes) and whether scanning stopped at a non-number -/
@@ -151,10 +163,11 @@ def mkSlot (g0 : Gen) (desc : Option (List Char)) : Slot :=
   -- the drivers read the first value of a fresh iterator (scale of the tolerant number text)
   let g := g0.value.1
   let first : Rat := match g0.value.2 with | some v => (if tooBig v then 0 else absR v) | none => 0
+  let hasGrid := match g0 with | .poly .. => true | .polyN .. => true | _ => false
   let fromText : Option IterSpec.Den := desc.bind fun d => (IterSpec.recognise d).bind (·.den)
   match fromText with
-  | some den => { src := .gen g, cur := { den := den, pos := 0 }, first := first }
-  | none => { src := .gen g, cur := { den := (denOf g).1, pos := 0 }, tailBad := (denOf g).2, first := first }
+  | some den => { src := .gen g, cur := { den := den, pos := 0 }, first := first, hasGrid := hasGrid }
+  | none => { src := .gen g, cur := { den := (denOf g).1, pos := 0 }, tailBad := (denOf g).2, first := first, hasGrid := hasGrid }
 
 def splitP (p : Char → Bool) : List Char → List (List Char)
   | [] => [[]]
@@ -164,10 +177,23 @@ def splitP (p : Char → Bool) : List Char → List (List Char)
       | [] => [[c]]
       | w :: ws => (c :: w) :: ws
 
-/-- the numbers of a text argument, when it is a list of numbers separated by single characters of `sep` -/
+/-- the numbers of a text argument: number tokens, each optionally preceded by white space and followed by
+    exactly one separator character (a character of `sep` or white space); no trailing separator -/
+def strNumsAux (sep : List Char) : Nat → List Char → Option (List Rat)
+  | 0, _ => none
+  | fuel + 1, s =>
+    let t := Iter.dropSpace s
+    let tok := t.takeWhile fun c => !(Iter.isSpace c || sep.contains c)
+    let rest := t.dropWhile fun c => !(Iter.isSpace c || sep.contains c)
+    match IterSpec.strictNumber tok with
+    | none => none
+    | some v =>
+      match rest with
+      | [] => some [v]
+      | _ :: more => if more.isEmpty then none else (strNumsAux sep fuel more).map (v :: ·)
+
 def strNums (text sep : List Char) : Option (List Rat) :=
-  if text.isEmpty then some []
-  else IterSpec.allSome ((splitP (fun c => sep.contains c) text).map IterSpec.strictNumber)
+  if text.isEmpty then some [] else strNumsAux sep (text.length + 1) text
 
 def strDen (text sep : List Char) : Option IterSpec.Den := (strNums text sep).map IterSpec.explicit
 
@@ -278,6 +304,26 @@ def walkSeg : Nat → SegCur → List String → List String × String × SegCur
       if c.pos + 1 < c.segs.length then walkSeg cap { c with pos := c.pos + 1 } (fmtSeg (some v) :: acc)
       else ((fmtSeg (some v) :: acc).reverse, "end", { c with pos := c.pos + 1 })
 
+/-- the documented loop on a text argument iterator reading keys -/
+def walkKey : Nat → StrIt → List (List Char) → List (List Char) × String × StrIt
+  | 0, it, acc => (acc.reverse, "cap", it)
+  | cap + 1, it, acc =>
+    if !it.hasValue then (acc.reverse, "null", it)
+    else match it.key with
+    | (it1, .err _) => (acc.reverse, "noconv", it1)
+    | (it1, .ok v) =>
+      match it1.advance with
+      | (it2, .more) => walkKey cap it2 (v :: acc)
+      | (it2, .last) => ((v :: acc).reverse, "end", it2)
+      | (it2, .err _) => ((v :: acc).reverse, "err", it2)
+
+/-- spec: words separated by single separator characters (no white space inside or around them) -/
+def strKeys (text sep : List Char) : Option (List (List Char)) :=
+  if text.isEmpty then some []
+  else
+    let toks := splitP (fun c => sep.contains c) text
+    if toks.all (fun t => !t.isEmpty && !t.any Iter.isSpace) then some toks else none
+
 def fmtVals (vs : List Rat) (first : Rat) : String :=
   if vs.isEmpty then "-" else ",".intercalate (vs.map fun v => fmtNum v false first)
 
@@ -332,7 +378,15 @@ def step (s : St) (w : List String) : St × String :=
           let g := match d with
             | none => none
             | some txt => profile grid txt
-          addSlot s (g.map fun x => mkSlot x none) true "* ; *"
+          addSlot s (g.map fun x => { mkSlot x none with hasGrid := true }) true "* ; *"
+  | ["it", "grow", k, n] =>
+    -- the owner of the grid array appends points: the array of a live source is not affected (copy on write)
+    match Dyadic.parseNat k, Dyadic.parseNat n with
+    | some i, some cnt =>
+      match s.slots[i]? with
+      | some sl => if sl.hasGrid ∧ cnt ≤ 1000 then (s, "R ok | C - | I -") else (s, "bad-op")
+      | none => (s, "bad-op")
+    | _, _ => (s, "bad-op")
   | ["it", "xcreate", h] =>
     -- extreme / non-finite parameters: a keyword description with an infinite or NaN parameter, a parameter
     -- beyond the largest double or a span that overflows must be refused; otherwise the model decides
@@ -369,7 +423,7 @@ def step (s : St) (w : List String) : St × String :=
             match d with
             | none => some (.poly grid [] 0 none)
             | some txt => mkPoly txt grid
-        addSlot s (g.map fun x => mkSlot x none) true "* ; *"
+        addSlot s (g.map fun x => { mkSlot x none with hasGrid := true }) true "* ; *"
     | _, _ => (s, "bad-op")
   | ["it", "string", t, sp] =>
     let dec (h : String) : Option (Option (List Char)) := if h = "null" then some none else (decodeDesc h).map some
@@ -438,6 +492,27 @@ def step (s : St) (w : List String) : St × String :=
           let seg1 := if r.isNone ∧ sl.seg.pos < n then { sl.seg with pos := sl.seg.pos + 1 } else sl.seg
           (setSlot s k { sl with src := src1, sync := false, seg := seg1 }, out ++ " | S * ; *")
         else (s, "bad-op")
+    else if kind = "kwalk" then
+      match Dyadic.parseNat h with
+      | none => (s, "bad-op")
+      | some cap =>
+        if cap > 4096 then (s, "bad-op") else
+        withSel s fun k sl =>
+          match sl.src with
+          | .str it =>
+            let (vs, stop, it1) := walkKey cap it []
+            let show_ (l : List (List Char)) := if l.isEmpty then "-" else ",".intercalate (l.map hexOf)
+            let r := s!"keys={show_ vs} n={vs.length} stop={stop}"
+            -- spec: from a fresh / reset iterator the keys are the words of the text
+            let fresh := it.pos = some 0 ∧ it.restore = none ∧ !it.endNull
+            let alts := match (if fresh then strKeys it.text it.sep else none) with
+              | some ws =>
+                if ws.isEmpty then "* ; *"
+                else if ws.length ≤ cap then s!"keys={show_ ws} n={ws.length} stop=end ; *"
+                else s!"keys={show_ (ws.take cap)} n={cap} stop=cap ; *"
+              | none => "* ; *"
+            (setSlot s k { sl with src := .str it1, sync := false }, s!"R {r} | C - | I - | S {alts}")
+          | _ => (s, "bad-op")
     else if kind = "walk" ∨ kind = "swalk" then
       match Dyadic.parseNat h with
       | none => (s, "bad-op")
@@ -594,7 +669,7 @@ def step (s : St) (w : List String) : St × String :=
         match sl.src with
         | .str it => addSlot s (some { sl with src := .str it.clone }) false alts
         | .buf b => addSlot s (some { sl with src := .buf b.clone }) false alts
-        | .gen g => addSlot s (g.clone.map fun g' => { sl with src := .gen g' }) false alts
+        | .gen g => addSlot s (g.clone.map fun g' => { sl with src := .gen g', hasGrid := false }) false alts
     else (s, "bad-op")
   | ["it", "vlinear", p, ld, a, b] =>
     match Dyadic.parseNat p, Dyadic.parseNat ld, Dyadic.parse a, Dyadic.parse b with
